@@ -9,8 +9,12 @@ NA = 'Network.NodalAnalysis.node_analysis'
 
 
 def run(rep, prog, tier):
+    from .hidden import no_hidden_state
+    rep.rule('R04.state', 'no hidden state in the anchored modules: no function writes a module-level object, no caching decorator / cached property')
+    no_hidden_state(rep, 'R04.state', prog, ['Network/transformers.py', 'Network/NodalAnalysis/node_analysis.py', 'Network/NodalAnalysis/bias_point_analysis.py', 'Network/elements.py'])
     rep.rule('R04.zeroing', 'a voltage source outside the exemption list becomes impedance(name, Z) on the same terminals, a current source admittance(name, Y); everything else is returned unchanged; reference label kept')
     rep.rule('R04.keep', 'remove_ideal_* / passive_network forward keep= to every inner call that accepts it')
+    rep.rule('R04.pure', 'the source-zeroing operations do not write to the network they are given (each single-source sub-network can be derived from the same original)')
     rep.rule('R04.rhs', 'the coefficient matrix reads element attributes only in {Y, Z, name} (plus V inside the ideal-source predicate); source values I / V are read only by the right-hand side')
     netxf.rule_zeroing(rep, prog)
     netxf.rule_keep(rep, prog)
@@ -33,6 +37,27 @@ def run(rep, prog, tier):
             rep.ob('R04.rhs', f'matrix-reads:{q}:{attr}', False, f'{q} (reachable from the coefficient matrix) reads source value element.{attr}: the matrix depends on the sources', site)
     else:
         rep.ob('R04.rhs', 'matrix-reads', True, f'{len(fns)} functions reachable from the coefficient matrix read only element.Y/Z/name (and V/I inside the kind predicates)')
+    # RHS accumulates the contribution of EVERY source at a node (no non-accumulating scatter), effect-free zeroing
+    from . import spacerules as SR
+    interps = SR.analyse(prog)
+    sc = [o for o in interps['mna'].obs + interps['bias'].obs if o.kind == 'scatter-accumulate']
+    if sc:
+        for i, o in enumerate(sc[:3]):
+            rep.ob('R04.rhs', f'rhs:accumulates#{i}', False, f'{o.detail} [{o.text}] -- with two sources on one node only one of them reaches the right-hand side: superposition fails', o.site)
+    else:
+        rep.ob('R04.rhs', 'rhs:accumulates', True, 'no non-accumulating scatter in the assembly of the right-hand side')
+    from .c20 import effects_of
+    eff = effects_of(prog)
+    for q in ('Network.transformers::short_circuitify_voltage_sources', 'Network.transformers::open_circuitify_current_sources',
+              'Network.transformers::remove_ideal_voltage_sources', 'Network.transformers::remove_ideal_current_sources', 'Network.transformers::passive_network'):
+        sm = eff.summ.get(q)
+        if sm is None:
+            rep.ob('R04.pure', q, None, 'function not found'); continue
+        if sm.mut:
+            p_, s_ = sorted(sm.mut.items())[0]
+            rep.ob('R04.pure', q, False, f'source zeroing writes to the network it is given (`{p_}`): {s_} -- deriving the single-source sub-networks from one original network fails after the first call', prog.funcs[q].site)
+        else:
+            rep.ob('R04.pure', q, True, 'returns a new network, the input is not written', prog.funcs[q].site)
     # RHS: I and V read once each, as array elements
     f = prog.func(NA, 'current_source_vector')
     src = ast.unparse(f.node)
